@@ -6,7 +6,7 @@
    matrices are universally quantified. *)
 From Coq Require Import List Arith Bool String.
 From BV Require Import Algebra.Mat Algebra.OpLang Algebra.PotLang Algebra.OpProofs Algebra.PotProofs.
-From BV Require Import Algebra.DiscLang Algebra.DiscProofs.
+From BV Require Import Algebra.DiscLang Algebra.DiscProofs Algebra.PotAlgebra.
 From BVgen Require Import OpClasses.
 Import ListNotations.
 
@@ -161,3 +161,25 @@ Theorem C14_blocked_unpack_projections_refuted :
     unpack_projections nat DimSpace dim spaces duals (pack nat ps) <> ps.
 Proof. exact unpack_projections_refuted. Qed.
 Print Assumptions C14_blocked_unpack_projections_refuted.
+
+(* potential algebra of the CURRENT source, conditional on its names resolving (false on the pinned tree, where the
+   refutations above apply; true once docs/fixes/c14_potential_sum.diff is in): a well-typed expression built with
+   + - unary- scalar* keeps space / component count / evaluation points and, applied to a grid function, evaluates to
+   (matrix expression) * coefficients; an ill-typed one raises ValueError *)
+Theorem C14_potential_algebra : forall (A : Type) (r0 r1 : A) (radd rmul rsub : A -> A -> A) (ropp : A -> A),
+  ring_theory r0 r1 radd rmul rsub ropp eq -> forall (rinv : A -> A) (invmass mass : nat -> nat -> M A)
+  (patoms : nat -> nat * nat * nat * M A) (prow : nat -> nat -> nat) (dim : nat -> nat),
+  (forall i, let '(s, c, p) := fst (patoms i) in rows (snd (patoms i)) = prow c p /\ cols (snd (patoms i)) = dim s) ->
+  potential_clean = true -> forall e : upot A,
+  match ptype_of A patoms e with
+  | Some (s, c, p) =>
+      exists o, pelab A r0 r1 ropp rinv patoms PB potential_classes e = Ok o /\
+                pprop A patoms PB o "space" = Ok s /\ pprop A patoms PB o "component_count" = Ok c /\
+                pprop A patoms PB o "evaluation_points" = Ok p /\
+                forall coef, rows coef = dim s ->
+                  exists m, peval A r0 r1 radd rmul ropp rinv invmass mass patoms o coef = Ok (VM m) /\
+                            meq A m (mmul A r0 radd rmul (pden A r1 radd rmul ropp patoms e) coef)
+  | None => pelab A r0 r1 ropp rinv patoms PB potential_classes e = Err ValueError
+  end.
+Proof. exact potential_algebra. Qed.
+Print Assumptions C14_potential_algebra.
